@@ -168,7 +168,7 @@ def main(tier, seed):
                     continue
                 cases.append({"name": name, "base": tree, "muts": ms, "has_dirhashes": has, "pats": PATS.get(name), "h": h})
                 if h is None and len(ms) <= 1:   # the root folder as a user may spell it: trailing separator, /., '.' from inside, ./name
-                    for sp in ("slash", "slashdot", "dot", "rel", "symlink"):
+                    for sp in ("slash", "slashdot", "dot", "rel", "symlink", "dotdot", "slashslash"):
                         cases.append({"name": name, "base": tree, "muts": ms, "has_dirhashes": has, "pats": PATS.get(name), "h": h, "spell": sp})
     res = eng.pmap(work, cases)
     for case, vs in zip(cases, res):
